@@ -30,6 +30,8 @@ type lexCheckSpec struct {
 	nontrivial func(lc *LCase, in []byte, ref *lexref.Result) bool
 	extra     func(c *Ctx, lc *LCase, in []byte, ref *lexref.Result, obs *hc.LexRun) string // additional oracle
 	skipCase  func(ref *lexref.Result) bool
+	noRef     bool // do not compare with the reference token stream (C11: the oracle is conservation, not equality)
+	violKind  string
 }
 
 func checkC02(c *Ctx) error {
@@ -174,7 +176,7 @@ func lexRunBatch(c *Ctx, sp *lexCheckSpec, r *rng.R, b *run.Batch, cases []*LCas
 				c.Ev.Count("inputs_outside_the_property", 1)
 				continue
 			}
-			if ref.PopEmpty || ref.StuckAtEps {
+			if !sp.noRef && ref.PopEmpty {
 				c.Ev.Count("inputs_outside_the_property", 1)
 				continue
 			}
@@ -190,7 +192,9 @@ func lexRunBatch(c *Ctx, sp *lexCheckSpec, r *rng.R, b *run.Batch, cases []*LCas
 			case len(obs.End) >= 5 && obs.End[:5] == "stop:":
 				why = "monitor stopped the run: " + obs.End
 			default:
-				why = compareTokens(ref, obs)
+				if !sp.noRef {
+					why = compareTokens(ref, obs)
+				}
 			}
 			if why == "" && sp.extra != nil {
 				why = sp.extra(c, lc, in, ref, obs)
@@ -201,15 +205,19 @@ func lexRunBatch(c *Ctx, sp *lexCheckSpec, r *rng.R, b *run.Batch, cases []*LCas
 				}
 				continue
 			}
+			vk := "token-stream-differs"
+			if sp.violKind != "" {
+				vk = sp.violKind
+			}
 			nv++
 			if nv > 2 {
 				c.mu.Lock()
 				c.nviol++
-				c.violKinds["token-stream-differs"]++
+				c.violKinds[vk]++
 				c.mu.Unlock()
 				continue
 			}
-			c.Violation("token-stream-differs", lc.replay(fmt.Sprintf("input %q: %s", in, why),
+			c.Violation(vk, lc.replay(fmt.Sprintf("input %q: %s", in, why),
 				[]hc.Job{run.MkJob(1, "", "lex", hc.LexJob{Inputs: [][]byte{in}, Rec: true})},
 				showRefToks(ref.Toks), showObsToks(obs.Toks, 40)))
 		}
